@@ -49,13 +49,17 @@ func isAllowedPossibleValue(opt *Option, value interface{}) error {
 		compareAgainst := val.Value
 		valueType := reflect.TypeOf(value)
 
-		// loading int's from the configuration JSON does not preserve the correct type
-		// as we get float64 instead. Make sure to convert them before.
-		if reflect.TypeOf(val.Value).ConvertibleTo(valueType) {
-			compareAgainst = reflect.ValueOf(val.Value).Convert(valueType).Interface()
-		}
-		if compareAgainst == value {
-			return nil
+		// Values without a type (nil) or of a type that cannot be compared with ==
+		// (slices, maps) can only match via reflect.DeepEqual below.
+		if valueType != nil && valueType.Comparable() {
+			// loading int's from the configuration JSON does not preserve the correct type
+			// as we get float64 instead. Make sure to convert them before.
+			if reflect.TypeOf(val.Value).ConvertibleTo(valueType) {
+				compareAgainst = reflect.ValueOf(val.Value).Convert(valueType).Interface()
+			}
+			if compareAgainst == value {
+				return nil
+			}
 		}
 
 		if reflect.DeepEqual(val.Value, value) {
